@@ -11,6 +11,8 @@ pub enum DeserializeError {
     ExpectedBool,
     #[error("expected integer value")]
     ExpectedInteger,
+    #[error("integer value is out of range")]
+    IntegerOutOfRange,
     #[error("expected comma as an array delimiter")]
     ExpectedArrayComma,
     #[error("expected colon as map delimiter")]
